@@ -1182,6 +1182,10 @@ impl SpanPrinter {
         // OK because the biggest FractionalUnit is Hour, and there is always
         // a Unit bigger than hour.
         let split_at = Unit::from(unit).next().unwrap();
+        // The sign is written by our caller, so we only want magnitudes
+        // here. (Otherwise, the fractional part below would carry the sign
+        // of the span with it.)
+        let span = span.abs();
         let non_fractional = span.without_lower(split_at);
         let fractional = span.only_lower(split_at);
         self.print_span_designators_non_fraction(&non_fractional, wtr)?;
@@ -1580,6 +1584,13 @@ impl<'p, 'w, W: Write> DesignatorWriter<'p, 'w, W> {
         if self.written_non_zero_unit {
             if self.printer.comma_after_designator {
                 self.wtr.write_str(",")?;
+                // The "friendly" grammar requires whitespace after a comma.
+                // So when spacing is otherwise disabled, we still need to
+                // write a space here. Otherwise, the parser would reject
+                // what we print.
+                if matches!(self.printer.spacing, Spacing::None) {
+                    self.wtr.write_str(" ")?;
+                }
             }
             self.wtr.write_str(self.printer.spacing.between_units())?;
         }
